@@ -26,7 +26,7 @@
      effective_hash_type forkid hto = hash_type or SIGHASH_ALL, OR-ed with SIGHASH_FORKID on fork-id coins;
      run passes st = Solver.sign applied once per pass (each pass has its own lookup table and hash type);
      ncovered ks passes = the number of listed keys supplied to at least one pass. *)
-From PV Require Import Base.Bytes Base.Outcome Gen.GenSolveC05 Spec.Templates Model.Solve Proofs.SolveP Proofs.SolveToyC05.
+From PV Require Import Base.Bytes Base.Outcome Gen.GenSolveC05 Spec.Templates Model.Solve Proofs.SolveP Proofs.SolveToyC05 Model.SolveKeychain Proofs.SolveKeychainP.
 Local Open Scope N_scope.
 
 Section C05.
@@ -144,6 +144,63 @@ Theorem C05_sign_never_raises :
   exists st, sign_input hash160 sha256 verifies sign pub_of sighash db p2sh forkid pz hto ss w = Ret st.
 Proof. exact sign_input_no_crash. Qed.
 
+(* ---- key-supply HISTORIES: one Keychain object across calls, passes and transactions ----------------------------- *)
+(* Model/SolveKeychain.v is pycoin/key/Keychain.py (as repaired in /repo bacec40 and 50fdc0a) as a state machine:
+   HASH160 rows (hash160, path, fingerprint) and P2S rows, the secrets, the secret-exponent cache; a history is any list
+   of add_key_paths / add_keys_path / add_secret / add_p2s_script / get / clear_secrets operations (a Tx.sign pass is a
+   sequence of get calls), `kc_run kc_empty ops` its final state.  Keys are opaque: kfp = fingerprint,
+   derive kid path = the subkey's secret exponent (path [] = the key itself).
+   Hypotheses of this block: no two (secret, form) pairs share a hash160; fingerprints identify keys. *)
+Section C05_keychain.
+Variable hash160 : bytes -> bytes.
+Variable sha256 : bytes -> bytes.
+Variable pub_of : bytes -> bool -> bytes.
+Variable kfp : bytes -> bytes.
+Variable derive : bytes -> bytes -> bytes.
+Hypothesis key_hash_injective :
+  forall se c se' c', key_hash hash160 pub_of se c = key_hash hash160 pub_of se' c' -> se = se' /\ c = c'.
+Hypothesis fingerprint_injective : forall a b : bytes, kfp a = kfp b -> a = b.
+
+(* HISTORY INDEPENDENCE: after ANY history the answer of get() for ANY hash is the answer of a keychain built afresh
+   from the same tables and secrets and asked once.  A lookup made before the secret existed, a failed signing attempt
+   with a watch-only keychain, secrets added in several steps, clear_secrets, other transactions signed in between,
+   lookups of the other form of the same key: none of it changes what the keychain answers. *)
+Theorem C05_keychain_history_independent :
+  forall (ops : list kop) (h : bytes),
+  let k := fst (kc_run hash160 sha256 pub_of kfp derive kc_empty ops) in
+  fst (kc_get hash160 sha256 pub_of kfp derive k h) = kc_fresh_get hash160 sha256 pub_of kfp derive k h.
+Proof. exact (history_independent hash160 sha256 pub_of kfp derive key_hash_injective fingerprint_injective). Qed.
+
+(* SOUNDNESS: get() hands out a key only if its secret is known to what the keychain holds NOW — an added private
+   key's own secret, or a subkey named by one of the hash's rows with the private key of that fingerprint present; in
+   particular nothing before add_secret and nothing after clear_secrets. *)
+Theorem C05_keychain_never_a_key_without_its_secret :
+  forall (ops : list kop) (h se : bytes) (c : bool),
+  let k := fst (kc_run hash160 sha256 pub_of kfp derive kc_empty ops) in
+  fst (kc_get hash160 sha256 pub_of kfp derive k h) = KEntry se c ->
+  h = key_hash hash160 pub_of se c /\ derivable_at kfp derive k h se.
+Proof. exact (sound hash160 sha256 pub_of kfp derive fingerprint_injective). Qed.
+
+(* COMPLETENESS: a route filed by add_key_paths at ANY point of the history — before or after the secret, before or
+   after other routes to the same key, before or after failed lookups — with its private key present at the end: the
+   subkey is answered, under its compressed and under its uncompressed hash. *)
+Theorem C05_keychain_complete :
+  forall (ops1 ops2 : list kop) (kid path : bytes) (c : bool),
+  let k := fst (kc_run hash160 sha256 pub_of kfp derive kc_empty (ops1 ++ KAddPaths kid [path] :: ops2)) in
+  In kid (kc_secrets k) ->
+  p2s_get hash160 sha256 (kc_p2s k) (key_hash hash160 pub_of (derive kid path) c) = None ->
+  fst (kc_get hash160 sha256 pub_of kfp derive k (key_hash hash160 pub_of (derive kid path) c)) = KEntry (derive kid path) c.
+Proof. exact (complete hash160 sha256 pub_of kfp derive key_hash_injective fingerprint_injective). Qed.
+
+(* ... and a private key that was added itself is answered under both of its hashes *)
+Theorem C05_keychain_complete_added_key :
+  forall (ops : list kop) (kid : bytes) (c : bool),
+  let k := fst (kc_run hash160 sha256 pub_of kfp derive kc_empty ops) in
+  p2s_get hash160 sha256 (kc_p2s k) (key_hash hash160 pub_of (derive kid []) c) = None -> In kid (kc_secrets k) ->
+  fst (kc_get hash160 sha256 pub_of kfp derive k (key_hash hash160 pub_of (derive kid []) c)) = KEntry (derive kid []) c.
+Proof. exact (complete_added hash160 sha256 pub_of kfp derive key_hash_injective fingerprint_injective). Qed.
+End C05_keychain.
+
 (* ---- non-vacuity: a toy instance of the abstract interface (Proofs/SolveToyC05.v) ------------------------------ *)
 (* the interface hypotheses of Section C05 are jointly satisfiable *)
 Example C05_interface_hypotheses_satisfiable : toy_interface.
@@ -177,4 +234,8 @@ Print Assumptions C05_standard_multisig_stack_shape.
 Print Assumptions C05_partial_signing_order_free.
 Print Assumptions C05_frame.
 Print Assumptions C05_sign_never_raises.
+Print Assumptions C05_keychain_history_independent.
+Print Assumptions C05_keychain_never_a_key_without_its_secret.
+Print Assumptions C05_keychain_complete.
+Print Assumptions C05_keychain_complete_added_key.
 Print Assumptions C05_generated_constants.
